@@ -24,14 +24,26 @@ from sa.ctx import Ctx
 from sa.report import Report
 from sa.guards import literals
 
-DECISION_FUNCTIONS = [
-    "SyncManager.sync", "SyncManager.pre_sync", "SyncManager.embrace_change", "SyncManager.handle_path_change_or_creation", "SyncManager.check_disjoint_create",
-    "SyncManager.handle_hash_diff", "SyncManager.handle_rename", "SyncManager.delete_synced", "SyncManager._handle_dir_delete_not_empty",
-    "SyncManager.handle_cloud_file_not_found_error", "SyncManager.handle_changed_is_missing", "SyncManager.create_synced", "SyncManager.mkdir_synced",
-    "SyncManager.unsafe_mkdir_synced", "SyncManager.handle_split_conflict", "SyncManager.check_rename_is_delete_create", "SyncManager._get_untrashed_peers",
-    "SyncManager.get_folder_file_conflict", "SyncManager._get_parent_conflict", "SyncManager._get_child_conflict", "SyncManager.check_revivify",
-    "SmartSyncManager.pre_sync", "SyncState.unconditionally_get_no_info", "SyncState.finished", "SyncManager.finished",
-]
+# property -> the functions whose action sites that property's decision-table rule decides
+PROPERTY_FUNCTIONS = {
+    "C01": ["SyncManager.sync", "SyncManager.pre_sync", "SyncManager.embrace_change", "SyncManager.handle_path_change_or_creation", "SyncManager.create_synced",
+            "SyncManager.mkdir_synced", "SyncManager.unsafe_mkdir_synced", "SyncManager.finished", "SyncState.finished", "SyncState.unconditionally_get_no_info",
+            "SyncManager.change_count"],
+    "C02": ["SyncManager.handle_hash_diff", "SyncManager.handle_split_conflict", "SyncManager.check_disjoint_create", "SyncManager.get_folder_file_conflict",
+            "SyncManager._get_parent_conflict", "SyncManager._get_child_conflict", "SyncManager._get_untrashed_peers"],
+    "C03": ["SyncManager.handle_rename", "SyncManager.check_rename_is_delete_create", "SyncManager.upload_synced", "SyncManager._create_synced",
+            "SyncManager.download_changed", "SyncManager.make_temp_file", "SyncManager.clean_temps", "SyncManager.update_entry"],
+    "C04": ["SyncManager.delete_synced", "SyncManager._handle_dir_delete_not_empty", "SyncManager.handle_cloud_file_not_found_error",
+            "SyncManager.handle_changed_is_missing", "SyncManager.check_revivify"],
+    "C05": ["SyncManager.resolve_conflict", "SyncManager.__resolver_merge_upload", "SyncManager._resolve_rename", "SyncManager.__safe_call_resolver",
+            "SyncManager.handle_hash_conflict", "SyncManager.rename_to_fix_conflict", "SyncManager.conflict_rename"],
+    "C10": ["SyncManager._sync_one_entry", "SyncManager.do", "SyncManager.handle_file_name_error", "SyncManager.handle_corrupt"],
+    "C12": ["SyncManager._validate_provider_roots"],
+    "C20": ["SmartSyncManager.pre_sync"],
+}
+DECISION_FUNCTIONS = [f for p in sorted(PROPERTY_FUNCTIONS) for f in PROPERTY_FUNCTIONS[p]]
+# shapes that are bookkeeping of one way of writing a search (a flag set in a loop, a filtering comprehension): decided only while the number of such sites is unchanged
+TOLERANT = ("set ", "filter ")
 
 
 def _generalise(txt: str) -> str:
@@ -61,10 +73,38 @@ class _Norm:
                 defs.setdefault(n.target.id, []).append(None)
                 defs[n.target.id].append(None)      # loop variables are never single-definition aliases
         self.defs = {k: [x for x in v] for k, v in defs.items()}
+        self.locdefs: Dict[str, List] = {}       # local -> what defines it (values, iterables), for locals that are neither parameters nor aliases
+        for n in ctx.own_nodes(f):
+            if isinstance(n, (ast.Assign, ast.AnnAssign)) and getattr(n, "value", None) is not None:
+                tg = n.targets[0] if isinstance(n, ast.Assign) else n.target
+                if isinstance(tg, ast.Name):
+                    self.locdefs.setdefault(tg.id, []).append(("=", n.value, n))
+                elif isinstance(tg, ast.Tuple):
+                    for i, e in enumerate(tg.elts):
+                        if isinstance(e, ast.Name):
+                            self.locdefs.setdefault(e.id, []).append(("=[%d]" % i, n.value, n))
+            elif isinstance(n, ast.AugAssign) and isinstance(n.target, ast.Name):
+                self.locdefs.setdefault(n.target.id, []).append(("+=", n.value, n))
+            elif isinstance(n, (ast.For, ast.comprehension)):
+                if isinstance(n.target, ast.Name):
+                    self.locdefs.setdefault(n.target.id, []).append(("in", n.iter, n if isinstance(n, ast.For) else None))
+                elif isinstance(n.target, ast.Tuple):
+                    for i, e in enumerate(n.target.elts):
+                        if isinstance(e, ast.Name):
+                            self.locdefs.setdefault(e.id, []).append(("in[%d]" % i, n.iter, n if isinstance(n, ast.For) else None))
+            elif isinstance(n, ast.ExceptHandler) and n.name:
+                self.locdefs.setdefault(n.name, []).append(("except", n.type, None))
+            elif isinstance(n, ast.withitem) and isinstance(n.optional_vars, ast.Name):
+                self.locdefs.setdefault(n.optional_vars.id, []).append(("with", n.context_expr, None))
+        for p in f.all_param_names():
+            self.locdefs.pop(p, None)
+        self._def_text: Dict[str, str] = {}
         self.alias = {}
         for k, v in defs.items():
-            if len(v) == 1 and v[0] is not None:
+            if len(v) == 1 and v[0] is not None and k not in f.all_param_names():
                 e0 = v[0]
+                if any(isinstance(x, ast.Name) and x.id == k for x in ast.walk(e0)):
+                    continue
                 if all(isinstance(x, (ast.Attribute, ast.Subscript, ast.Name, ast.Load, ast.Constant)) for x in ast.walk(e0)) and not isinstance(e0, (ast.Name, ast.Constant)) \
                         and not (isinstance(e0, ast.Subscript) and isinstance(e0.value, ast.Name) and e0.value.id == "OTHER_SIDE"):
                     self.alias[k] = e0
@@ -101,7 +141,41 @@ class _Norm:
             return "%s%d" % ("OTHER" if sd[1] else "SIDE", self.bases.index(sd[0]))
         return None
 
-    def expr(self, e: ast.AST) -> ast.AST:
+    def def_text(self, name: str, at=None) -> str:
+        """what defines a local where `at` is evaluated (its reaching definitions), as text that does not depend on its name:
+        `info` is `= self.providers[OTHER0].info_oid(?a)`"""
+        key = (name, id(at))
+        if key not in self._def_text:
+            from rules.common import generalise
+            from sa.ctx import reaching_defs
+            entries = self.locdefs[name]
+            if at is not None and all(e[2] is not None for e in entries) and len(entries) > 1:
+                try:
+                    rd, _ = reaching_defs(self.ctx, self.f, at, name)
+                except Exception:       # the statement is not in this function's graph (a fact carried over from the caller)
+                    rd = []
+                live = [e for e in entries if any(e[2] is d for d in rd)]
+                if live:
+                    entries = live
+            out = set()
+            for (how, v, _st) in entries:
+                if v is None:
+                    out.add(how)
+                elif isinstance(v, ast.Constant) and isinstance(v.value, bool):
+                    out.add("%s FLAG" % how)
+                elif isinstance(v, ast.Constant):
+                    out.add("%s %r" % (how, v.value))
+                elif _is_search(v):
+                    out.add("%s FLAG" % how)
+                elif isinstance(v, (ast.ListComp, ast.SetComp, ast.DictComp, ast.GeneratorExp, ast.List, ast.Set, ast.Dict, ast.Tuple)) or \
+                        (isinstance(v, ast.Call) and isinstance(v.func, ast.Name) and v.func.id in ("list", "set", "dict", "sorted", "tuple", "any", "all")):
+                    out.add("%s COLLECTION" % how if not (isinstance(v, ast.Call) and v.func.id in ("any", "all")) else "%s SEARCH" % how)
+                else:
+                    out.add("%s %s" % (how, generalise(ast.unparse(self.expr(v, defs=False)))))
+            self._def_text[key] = " | ".join(sorted(out)).replace("$", "?")     # `$` would be read as a metavariable by the matcher
+        return self._def_text[key]
+
+    def expr(self, e: ast.AST, defs: bool = True, at=None) -> ast.AST:
         me = self
 
         class U(ast.NodeTransformer):
@@ -113,7 +187,11 @@ class _Norm:
                 if isinstance(n.ctx, ast.Load) and n.id in me.alias:
                     return ast.copy_location(self.visit(ast.parse(ast.unparse(me.alias[n.id]), mode="eval").body), n)
                 if n.id in me.side_names:
-                    return self._tok(n) or n
+                    t = self._tok(n)
+                    if t is not None:
+                        return t
+                if defs and isinstance(n.ctx, ast.Load) and n.id in me.locdefs and n.id not in me.side_names:
+                    return ast.copy_location(ast.Call(func=ast.Name(id="DEF", ctx=ast.Load()), args=[ast.Constant(value=me.def_text(n.id, at))], keywords=[]), n)
                 return n
 
             def visit_Subscript(self, n):
@@ -132,12 +210,18 @@ class _Norm:
                 return self.generic_visit(b)
         return U().visit(ast.parse(ast.unparse(e), mode="eval").body)
 
-    def txt(self, txt: str) -> str:
+    def txt(self, txt: str, at=None) -> str:
         try:
             e = ast.parse(txt, mode="eval").body
         except SyntaxError:
             return txt
-        return ast.unparse(self.expr(e))
+        return ast.unparse(self.expr(e, at=at))
+
+
+def _is_search(v) -> bool:
+    if isinstance(v, ast.UnaryOp) and isinstance(v.op, ast.Not):
+        v = v.operand
+    return isinstance(v, ast.Call) and isinstance(v.func, ast.Name) and v.func.id in ("any", "all")
 
 
 def _norm(ctx: Ctx, f) -> _Norm:
@@ -147,7 +231,7 @@ def _norm(ctx: Ctx, f) -> _Norm:
     return cache[f.qname]
 
 
-def expand_facts(ctx: Ctx, f, facts, depth: int = 3):
+def expand_facts(ctx: Ctx, f, facts, depth: int = 3, at=None):
     """facts with boolean locals replaced by the literals of their (single) definition: `x = a and not b; if x:` gives (a, T), (b, F); then normalised (_Norm)."""
     nm = _norm(ctx, f)
     defs = nm.defs
@@ -170,7 +254,7 @@ def expand_facts(ctx: Ctx, f, facts, depth: int = 3):
         out = new
         if not changed:
             break
-    return {(nm.txt(t), p) for (t, p) in out}
+    return {(nm.txt(t, at), p) for (t, p) in out}
 
 
 def _pure_call(c) -> bool:
@@ -205,6 +289,7 @@ def decision_sites(ctx: Ctx):
                     continue
                 st = n.ast
                 shapes = []
+                extra = set()
                 if isinstance(st, ast.Return):
                     v = st.value
                     if v is None or (isinstance(v, ast.Constant) and v.value is None):
@@ -212,13 +297,13 @@ def decision_sites(ctx: Ctx):
                     elif isinstance(v, (ast.Constant, ast.Name)) or (isinstance(v, ast.Tuple) and all(isinstance(e, (ast.Constant, ast.Name)) for e in v.elts)):
                         shapes.append("return " + (_generalise(ast.unparse(v)) if v is not None and not isinstance(v, ast.Constant) else ast.unparse(v) if v is not None else "None"))
                     elif isinstance(v, ast.Call):
-                        shapes.append("return " + _call_shape(v, _norm(ctx, f)))
+                        shapes.append("return " + _call_shape(v, _norm(ctx, f), ctx, f))
                     else:
                         shapes.append("return <expr>")
                 elif isinstance(st, ast.Expr) and isinstance(st.value, ast.Call) and not _is_log(st.value):
                     if not (isinstance(st.value.func, ast.Attribute) and st.value.func.attr in ("append", "extend", "add", "insert", "update", "sort", "remove", "discard", "pop")
                             and not ast.unparse(st.value.func.value).startswith("self")):
-                        shapes.append(_call_shape(st.value, _norm(ctx, f)))
+                        shapes.append(_call_shape(st.value, _norm(ctx, f), ctx, f))
                 elif isinstance(st, ast.Continue):
                     shapes.append("continue")
                 elif isinstance(st, ast.Raise):
@@ -231,25 +316,62 @@ def decision_sites(ctx: Ctx):
                         shapes.append("graft %s" % _generalise("(%s, %s)" % (ast.unparse(_norm(ctx, f).expr(tg)), ast.unparse(_norm(ctx, f).expr(st.value)))))
                     elif isinstance(st, ast.Assign) and isinstance(st.value, ast.Call) and not _is_log(st.value) and isinstance(st.value.func, ast.Attribute) \
                             and ast.unparse(st.value.func.value).startswith("self"):
-                        shapes.append("call " + _call_shape(st.value, _norm(ctx, f)))
+                        shapes.append("call " + _call_shape(st.value, _norm(ctx, f), ctx, f))
+                    elif isinstance(tg, ast.Name) and isinstance(st, ast.Assign) and isinstance(st.value, ast.Constant) and isinstance(st.value.value, (bool, type(None))):
+                        shapes.append("set $a = %r" % (st.value.value,))
+                    elif isinstance(tg, ast.Name) and isinstance(st, ast.Assign) and _filters(st.value):
+                        shapes.append("filter $a")
+                        extra = {("KEPT(%s)" % t, p) for cnd in _filters(st.value) for (t, p) in literals(cnd, True)}
+                # `x.a = p if c else q` is `if c: x.a = p` / `else: x.a = q`
+                arms = [extra]
+                if isinstance(st, ast.Assign) and isinstance(st.value, ast.IfExp) and shapes and shapes[0].startswith("store "):
+                    arms = [extra | literals(st.value.test, True), extra | literals(st.value.test, False)]
                 for sh in shapes:
                     if not ctx.facts(f).reachable(n):
                         continue
-                    facts = expand_facts(ctx, f, ctx.facts(f).facts(n) if f is f0 else ctx.facts_inlined(f, st))
-                    out.append(("%s|%s" % (spec, sh), f, st, facts))
+                    for arm in arms:
+                        facts = expand_facts(ctx, f, set(ctx.facts(f).facts(n) if f is f0 else ctx.facts_inlined(f, st)) | arm | _handler_facts(f, st), at=st)
+                        out.append(("%s|%s" % (spec, sh), f, st, _conjunctive(facts)))
     return out
 
 
 _TOKEN = re.compile(r"^(SIDE\d+|OTHER\d+|LOCAL|REMOTE)$")
 
 
-def _call_shape(c: ast.Call, nm: "_Norm" = None) -> str:
-    """receiver kind, method and the side arguments: `self.update_entry(sync, synced, ...)` is `self.update_entry(OTHER0)`"""
+def _bound(ctx: Ctx, f, c0: ast.Call):
+    """parameter names the call's arguments bind in the callee (positional or keyword alike), when the callee is resolved"""
+    site = ctx.site_of(f, c0, "call") if ctx is not None else None
+    cal = (site.under or site.over) if site is not None else []
+    if not cal:
+        return None
+    cal = sorted(cal, key=lambda g: (not g.qname.endswith("Provider.%s" % g.name), g.qname))[0]
+    a = cal.node.args
+    pos = [x.arg for x in list(a.posonlyargs) + list(a.args) + list(a.kwonlyargs)]
+    if pos and pos[0] in ("self", "cls"):
+        pos = pos[1:]
+    return pos
+
+
+def _call_shape(c: ast.Call, nm: "_Norm" = None, ctx: Ctx = None, f=None) -> str:
+    """receiver kind, method, which parameters are passed and the side / constant arguments: `self.update_entry(sync, synced, exists=True, oid=o)` is
+    `self.update_entry(ent, side=OTHER0, exists=True, oid)`"""
+    pos = _bound(ctx, f, c) if f is not None else None
     if nm is not None:
         c = nm.expr(c)
     fn = c.func
-    sides = [a.id for a in c.args if isinstance(a, ast.Name) and _TOKEN.match(a.id)] + \
-            ["%s=%s" % (k.arg, k.value.id) for k in c.keywords if k.arg and isinstance(k.value, ast.Name) and _TOKEN.match(k.value.id)]
+
+    def val(v):
+        if isinstance(v, ast.Name) and _TOKEN.match(v.id):
+            return "=" + v.id
+        if isinstance(v, ast.Constant) and isinstance(v.value, (bool, type(None))):
+            return "=" + repr(v.value)
+        return ""
+    if pos is not None and not any(isinstance(x, ast.Starred) for x in c.args) and len(c.args) <= len(pos) and all(k.arg in pos for k in c.keywords) and not any(k.arg is None for k in c.keywords):
+        # parameters by position in the callee's signature (names may be renamed); a keyword the callee does not declare (**kwargs) keeps its name
+        sides = sorted(["#%d%s" % (i, val(x)) for i, x in enumerate(c.args)] + ["%s%s" % ("#%d" % pos.index(k.arg) if k.arg in pos else k.arg, val(k.value)) for k in c.keywords])
+    else:
+        sides = [a.id for a in c.args if isinstance(a, ast.Name) and _TOKEN.match(a.id)] + \
+                sorted("%s%s" % (k.arg, val(k.value)) for k in c.keywords if k.arg)
     if isinstance(fn, ast.Attribute):
         recv = ast.unparse(fn.value)
         sub = "[%s]" % fn.value.slice.id if isinstance(fn.value, ast.Subscript) and isinstance(fn.value.slice, ast.Name) and _TOKEN.match(fn.value.slice.id) else ""
@@ -257,6 +379,50 @@ def _call_shape(c: ast.Call, nm: "_Norm" = None) -> str:
                ("self._nmgr" if recv in ("self._nmgr", "self.nmgr") else "$o" + sub)))
         return "%s.%s(%s)" % (recv, fn.attr, ", ".join(sides))
     return "%s(%s)" % (ast.unparse(fn), ", ".join(sides))
+
+
+def _conjunctive(facts):
+    """facts without the disjunctive ones: after `if a: if b: return` nothing is known, after `if a and b: return` the literal `not a or not b` is - the two
+    spellings are only comparable on their conjunctive facts"""
+    out = set()
+    for (t, p) in facts:
+        try:
+            e = ast.parse(t, mode="eval").body
+        except SyntaxError:
+            out.add((t, p))
+            continue
+        if isinstance(e, ast.BoolOp) and ((isinstance(e.op, ast.Or) and p) or (isinstance(e.op, ast.And) and not p)):
+            continue
+        if isinstance(e, ast.Compare) and len(e.ops) == 1 and isinstance(e.ops[0], (ast.In, ast.NotIn)) and isinstance(e.comparators[0], (ast.Tuple, ast.List, ast.Set)) \
+                and 1 < len(e.comparators[0].elts) <= 4:
+            # `X in (a, b)` is `a == X or b == X`
+            if isinstance(e.ops[0], ast.In) == p:
+                continue
+            from sa.canon import canon_text
+            for el in e.comparators[0].elts:
+                out.add((canon_text("%s == %s" % (ast.unparse(el), ast.unparse(e.left))), False))
+            continue
+        out.add((t, p))
+    return out
+
+
+def _filters(v: ast.AST):
+    """the `if` conditions of a comprehension that builds the value (directly or under list() / set() / any() / all() / sorted())"""
+    if isinstance(v, ast.Call) and isinstance(v.func, ast.Name) and v.func.id in ("list", "set", "any", "all", "sorted", "tuple") and len(v.args) >= 1:
+        v = v.args[0]
+    if isinstance(v, (ast.ListComp, ast.SetComp, ast.GeneratorExp)):
+        return [c for g in v.generators for c in g.ifs]
+    return []
+
+
+def _handler_facts(f, st):
+    """(`except <types>`, True) for every handler the statement is inside of"""
+    cache = f.__dict__.setdefault("_decision_handlers", None) if hasattr(f, "__dict__") else None
+    out = set()
+    for h in ast.walk(f.node):
+        if isinstance(h, ast.ExceptHandler) and any(x is st for b in h.body for x in ast.walk(b)):
+            out.add(("EXCEPT(%r)" % (ast.unparse(h.type) if h.type is not None else "BaseException"), True))
+    return out
 
 
 def table_path():
@@ -273,8 +439,17 @@ def build_table(ctx: Ctx):
     return t
 
 
+def table_sites(prop: str) -> int:
+    """number of sites of the committed table that the property's rule must decide (the tolerant bookkeeping shapes are not counted)"""
+    table = json.load(open(table_path()))
+    fns = set(PROPERTY_FUNCTIONS[prop])
+    return sum(len(v) for k, v in table.items() if k.split("|")[0] in fns and not k.split("|", 1)[1].startswith(TOLERANT))
+
+
 def decision_table(ctx: Ctx, rep: Report, rid: str, functions=None):
     """Every decision site of the state machine is reached under one of the path conditions the table records for (function, site shape)."""
+    if isinstance(functions, str):
+        functions = PROPERTY_FUNCTIONS[functions]
     from rules.common import _match_condition
     table = json.load(open(table_path()))
     groups: Dict[str, List] = {}
@@ -286,6 +461,8 @@ def decision_table(ctx: Ctx, rep: Report, rid: str, functions=None):
     for key in sorted(set(groups) | {k for k in table if functions is None or k.split("|")[0] in functions}):
         sites = groups.get(key, [])
         conds = [[(t, p) for (t, p) in c] for c in table.get(key, [])]
+        if key.split("|", 1)[1].startswith(TOLERANT) and len(sites) != len(conds):
+            continue        # the search was rewritten (flag loop <-> any(), comprehension <-> loop): its bookkeeping sites are not comparable
         if not conds:
             for (f, st, facts) in sites:
                 rep.violation(rid, key, ctx.line(f, st), "`%s` in %s is a decision site the table does not have (reached under %s)" % (ast.unparse(st).split("\n")[0][:60], f.name, sorted(facts)), func=f.qname)
